@@ -83,3 +83,15 @@ Check C09_end_to_end : forall (o : opts) (now : Z) (s : state) (line : list N) (
 Print Assumptions C09_end_to_end.
 
 
+
+(** ---- the frame that creates the row ---- *)
+From SQ Require Import Base Table Update EndToEnd EndToEnd2.
+
+
+(** a velocity squitter that creates the row delivers vertical rate, ground speed and track *)
+Theorem C09_new_row : forall (o : opts) (now : Z) (s : state) (line : list N) (s' : state) (rf : bool) (a : N) (m : list N), step_line o now s line = Ok (s', rf, Applied 17 a) -> lookup (tbl s) a = None -> (0 < delete_after o)%Z -> get_message line = Ok (Some m) -> field m 33 37 = 19 -> exists r' : row, lookup (tbl s') a = Some r' /\ vrate r' = VelSpec.vrate_spec (bit_at m 69) (field m 70 78) /\ (field m 38 40 = 1 \/ field m 38 40 = 2 -> (track r', grspeed r') = VelSpec.vel_spec (field m 38 40 =? 2) (bit_at m 46) (field m 47 56) (bit_at m 57) (field m 58 67)).
+Proof. exact velocity_new_row. Qed.
+Check C09_new_row : forall (o : opts) (now : Z) (s : state) (line : list N) (s' : state) (rf : bool) (a : N) (m : list N), step_line o now s line = Ok (s', rf, Applied 17 a) -> lookup (tbl s) a = None -> (0 < delete_after o)%Z -> get_message line = Ok (Some m) -> field m 33 37 = 19 -> exists r' : row, lookup (tbl s') a = Some r' /\ vrate r' = VelSpec.vrate_spec (bit_at m 69) (field m 70 78) /\ (field m 38 40 = 1 \/ field m 38 40 = 2 -> (track r', grspeed r') = VelSpec.vel_spec (field m 38 40 =? 2) (bit_at m 46) (field m 47 56) (bit_at m 57) (field m 58 67)).
+Print Assumptions C09_new_row.
+
+
